@@ -203,6 +203,21 @@ class Printer:
         ({obj} = the object expression of a member call printed as a value, without taking its address first)"""
         throws = False
         hoist = False
+        if getattr(self, 'drop_guard', None) is not None:
+            # opt-in (frame proofs, specs/C18): arguments that the mapping does not translate must be free of effects the
+            # spec gives a meaning to; the guard (set by a spec hook) raises Unsupported otherwise
+            bare = mapping.rstrip('!^')
+            if bare in ('@drop', '@nondet', '@throw'):
+                untranslated = list(args) + ([objnode[0]] if objnode else [])
+            elif '{' in bare or '(' in bare:
+                used = {int(x) for x in re.findall(r'\{&?(\d+)\}', bare)}
+                untranslated = [a for i, a in enumerate(args) if i not in used]
+                if objnode and not re.search(r'\{(self|\*self|obj)\}', bare):
+                    untranslated.append(objnode[0])
+            else:
+                untranslated = []
+            for a in untranslated:
+                self.drop_guard(self, a, key)
         if mapping.endswith('!^'):
             # may-throw callee whose result is used inside a larger expression: the call is hoisted into a temporary
             # in front of the statement, followed by the exception check (see stmt / function)
@@ -425,6 +440,8 @@ class Printer:
     def havoc_value(self, n, why):
         """the value of an expression computed from erased numerics: nondeterministic (sound over-approximation)"""
         self.check_pure(n, why)
+        if getattr(self, 'drop_guard', None) is not None:
+            self.drop_guard(self, n, why)           # opt-in (frame proofs): nothing the spec maps may hide inside an erased expression
         line = n.get('range', {}).get('begin', {}).get('line', '?')
         self.erased.append(f'line {line}: {why}')
         self.note('auto-havoc: ' + why.split(':')[0])
@@ -450,12 +467,18 @@ class Printer:
             mapped = None
             if k == 'CXXMemberCallExpr' and inner and inner[0].get('kind') == 'MemberExpr':
                 me = inner[0]
-                mapped = self.lookup(self.members, f'{me["name"]}|{strip_cv(qual(me["inner"][0]["type"]))}')
+                # (the same key as member_call / call build, so that a mapping that tells overloads apart by their literal
+                #  argument or argument count is found here too)
+                lit = string_literal_of(inner[1]) if len(inner) > 1 else None
+                mapped = self.lookup(self.members, f'{me["name"]}|{strip_cv(qual(me["inner"][0]["type"]))}'
+                                     + (f'|"{lit}"' if lit is not None else '') + f'|#{len(inner) - 1}' + self.template_text(me, me["name"]))
             elif k in ('CallExpr', 'CXXOperatorCallExpr'):
                 rd = unwrap(inner[0]).get('referencedDecl')
                 if rd is not None:
                     a0 = strip_cv(qual(inner[1]['type'])) if len(inner) > 1 else ''
-                    mapped = self.lookup(self.calls, f'{rd["name"]}|{rd["type"]["qualType"]}|{a0}')
+                    lit = string_literal_of(inner[1]) if len(inner) > 1 else None
+                    mapped = self.lookup(self.calls, f'{rd["name"]}|{rd["type"]["qualType"]}|{a0}'
+                                         + (f'|"{lit}"' if lit is not None else '') + f'|#{len(inner) - 1}')
             if mapped is None:
                 return self.havoc_value(n, f'erased {k} of opaque type')
         if k in CAST_KINDS:
@@ -736,6 +759,21 @@ class Printer:
             return ''
         if v['kind'] != 'VarDecl':
             raise Unsupported('declaration kind ' + v['kind'])
+        if v.get('storageClass') == 'static' or v.get('tls'):
+            # a function-local static keeps its value across calls and is shared by every caller.  DFCC treats a C static
+            # local as part of the implicit frame of the function that declares it, which would hide exactly this sharing:
+            # it is printed as a file-scope object `nv_static_<function>_<name>` (every global is nondeterministic at
+            # entry), so that a write to it must be listed in the assigns clause like any other global
+            if v.get('tls'):
+                raise Unsupported(f'thread_local variable {v.get("name")}')
+            c = self.ctype(v['type'])
+            if v['type'].get('qualType', '').rstrip().endswith('&'):
+                raise Unsupported(f'function-local static reference {v.get("name")}')
+            g = f'nv_static_{self.cname}_{v["name"]}'
+            self.protos[g] = f'{c} {g};   /* function-local static {v["name"]} of {self.cname} */'
+            self.renamed[v.get('id')] = g
+            self.note(f'function-local static {v.get("name")} -> global {g}')
+            return ''
         init = [x for x in v.get('inner', []) if x.get('kind') not in ('FullComment',)]
         ty = v['type'].get('qualType', '').rstrip()
         if init and unwrap(init[0]).get('kind') == 'LambdaExpr':
